@@ -5,6 +5,7 @@ import Dbus.Model.Signature
 import Driver.Tree
 import Driver.Wire
 import Driver.PC
+import Driver.Match
 /-
   Line-protocol driver over Dbus.Model (compiled; imports no proofs and no Mathlib).
 
@@ -48,6 +49,9 @@ def handle (st : Stats) (line : String) : Stats × Option String :=
   | "pc" :: rest =>
     let (p, ans) := pcCmd st.pc rest
     ({ st with pc := p, bad := if ans = "bad-op" then st.bad + 1 else st.bad }, some ans)
+  | "match" :: rest =>
+    let ans := matchCmd rest
+    ({ st with bad := if ans = "bad-op" then st.bad + 1 else st.bad }, some ans)
   | "wire" :: rest =>
     let ans := wireCmd rest
     ({ st with bad := if ans = "bad-op" then st.bad + 1 else st.bad }, some ans)
